@@ -569,7 +569,7 @@ pub fn c08(tier: &str) -> ! {
     rep.assume("a failing call has no effect on the file (fail-before semantics); one fault per execution, either that single call (once) or that call and all later ones of the counted classes (sticky)");
     rep.assume("counted call classes: create, write/append, rename, remove, open-for-read, size (thorough adds list and, for one configuration, handle reads and flush)");
     rep.assume("histories executed under the deterministic eager schedule");
-    rep.cov("rule", json!("one evaluation = one re-execution of a history with the i-th filesystem call failing (once or sticky), for every i of the uninjected run; judged: no panic, no hang (also at close); after every operation all keys are read and the non-error results must be explained by one candidate state (Ok writes applied, Err writes applied or not); after disarming the fault the database must reopen and contain a candidate state. Schedule part: every schedule within the stated bounds of writer/reader thread programs with a fault by file kind (once / sticky): the history must be linearizable with failed calls optional (an Ok write is visible to every later successful read) and after the fault is gone a reopened database holds, per key, a value no acknowledged write definitely overwrote. distinct_nontrivial = injections whose fault actually fired (the call index was reached)"));
+    rep.cov("rule", json!("one evaluation = one re-execution of a history with the i-th filesystem call failing (once or sticky), for every i of the uninjected run; judged: no panic, no hang (also at close); after every operation all keys are read (gets; one long-lived iterator parked at the first entry and positioned at every key, a failed seek retried once on the same iterator; a full forward and a full backward scan on fresh iterators) and the results that came without an error must be explained by one candidate state (Ok writes applied, Err writes applied or not; a scan that ends without an error is complete); after disarming the fault the database must reopen and contain a candidate state. Schedule part: every schedule within the stated bounds of writer/reader thread programs with a fault by file kind (once / sticky): the history must be linearizable with failed calls optional (an Ok write is visible to every later successful read) and after the fault is gone a reopened database holds, per key, a value no acknowledged write definitely overwrote. distinct_nontrivial = injections whose fault actually fired (the call index was reached)"));
     rep.finish()
 }
 
